@@ -46,23 +46,41 @@ def prog_part(ctx):
             o["VacuumGap"] = 0
         prog.sprinkle(core.Rng("c13nuisance", ctx.seed, i), o, wd=d, clamp_ok=True, padding_ok=False)        # more options that have to survive the round trip
         prog.run_inovesa("rel", dict(o, outstep=0, rotations=0.01, output="warm.h5"), d, xdg, timeout=600)
-        r1 = prog.run_inovesa("rel", dict(o, output="first.h5"), d, xdg, timeout=600)
+        env1, env1lab = prog.envmix(core.Rng("c13env1", ctx.seed, i), 0.25)
+        # every second pair gives the output as an absolute path (below HOME, which run_inovesa sets to the run directory) and takes it from the
+        # saved file in the rerun, which is started from another working directory: only possible when no other option holds a relative path
+        abs_out = i % 2 == 1 and not any(isinstance(v, str) and not os.path.isabs(v) for v in o.values())
+        r1 = prog.run_inovesa("rel", dict(o, output=os.path.join(d, "first.h5") if abs_out else "first.h5"), d, xdg, timeout=600, env=env1)
         out = dict(i=i, opts=o, cmd=" ".join(r1["argv"]))
         if r1["rc"] != 0 or not os.path.exists(os.path.join(d, "first.h5.cfg")):
             out["incon"] = "original run failed: " + r1["err"][-200:]
             return out
-        r2 = prog.run_inovesa("rel", dict(output="second.h5"), d, xdg, timeout=120, config="first.h5.cfg")
+        # the rerun happens in another shell, another day: half of the reruns (and a quarter of the original runs) get an environment that differs
+        # in things that are no parameter of the simulation (prog.envmix); the FFT wisdom directory stays the same
+        env2, envlab = prog.envmix(core.Rng("c13env2", ctx.seed, i), 0.5)
+        if abs_out:
+            os.rename(os.path.join(d, "first.h5"), os.path.join(d, "orig.h5"))
+            os.makedirs(os.path.join(d, "elsewhere"), exist_ok=True)
+            if "HOME" not in (env2 or {}):
+                env2 = dict(env2 or {}, HOME=d)          # same HOME as the original run unless the mix changes it
+            r2 = prog.run_inovesa("rel", {}, os.path.join(d, "elsewhere"), xdg, timeout=120, config=os.path.join(d, "first.h5.cfg"), env=env2)
+            out["abs_out"] = True
+            f1, f2 = "orig.h5", "first.h5"
+        else:
+            r2 = prog.run_inovesa("rel", dict(output="second.h5"), d, xdg, timeout=120, config="first.h5.cfg", env=env2)
+            f1, f2 = "first.h5", "second.h5"
         out["cmd2"] = " ".join(r2["argv"])
+        out["env"] = env1lab + " / " + envlab
         out["cfg"] = open(os.path.join(d, "first.h5.cfg")).read()
         bad = prog.program_outcome_key(r2)
         if bad:
             out["viol"] = ("C13:rerun:" + bad[0].split(":")[0], "rerun with the saved configuration does not terminate normally: " + bad[1])
             return out
-        if r2["rc"] != 0 or not os.path.exists(os.path.join(d, "second.h5")):
+        if r2["rc"] != 0 or not os.path.exists(os.path.join(d, f2)):
             out["viol"] = ("C13:rerun:no_output", "rerun with the saved configuration produces no results")
             out["stderr"] = (r2["out"] + r2["err"])[-400:]
             return out
-        h1, h2 = prog.H5(os.path.join(d, "first.h5")), prog.H5(os.path.join(d, "second.h5"))
+        h1, h2 = prog.H5(os.path.join(d, f1)), prog.H5(os.path.join(d, f2))
         P = physics.derive(o)
         nrec, badrec = h5oracle.compare_common_records(h1, h2, P["steps"])
         out["compared"] = nrec
@@ -80,9 +98,13 @@ def prog_part(ctx):
             continue
         ctx.case("prog:%s" % sorted((k, str(v)) for k, v in res["opts"].items()))
         ctx.ev("reruns_with_saved_cfg")
+        if res.get("env", "plain / plain") != "plain / plain":
+            ctx.ev("reruns_in_a_changed_environment")
+        if res.get("abs_out"):
+            ctx.ev("reruns_from_another_directory_output_taken_from_the_saved_file")
         ctx.ev("rerun_records_compared", res.get("compared", 0))
         if "viol" in res:
-            ctx.violation(res["viol"][0], res["viol"][1], dict(options=res["opts"], cmd=res["cmd"], rerun_cmd=res.get("cmd2"), saved_cfg=res.get("cfg", "")[:1200],
+            ctx.violation(res["viol"][0], res["viol"][1], dict(options=res["opts"], cmd=res["cmd"], rerun_cmd=res.get("cmd2"), environment=res.get("env"), saved_cfg=res.get("cfg", "")[:1200],
                                                             detail=res.get("bad"), stderr=res.get("stderr")))
 
 
